@@ -531,3 +531,52 @@ prop(dict(
     assumptions=COMMON_ASSUME + ["the packetizer clock and start timestamp are set through verif-tagged accessors",
                                  "the MTU bound is demanded of a packet whose fragment respects the budget the packetizer gave the payloader (Opus ignores the budget by design)"],
 ))
+
+
+# ---------------------------------------------------------------- C08
+C08_KINDS = ["g711", "g722", "opus", "h264", "h264_nostap", "h265", "h265_donl", "h265_skipagg", "h265_donl_skipagg", "vp8", "vp8pid", "vp9", "vp9_flex", "av1"]
+C08_SHAPES = {"h264": ["annexb3", "annexb4", "annexb_mixed", "h264_params", "h264_slice", "h264_sps", "h264_pps"], "h265": ["h265nals", "annexb4", "annexb3"],
+              "av1": ["obu", "obu_nosize_last", "obu_ext", "obu_bad"], "vp9": ["vp9_key", "vp9_inter", "vp9_p1", "vp9_p3", "vp9_existing"]}
+
+
+def _shapes_for(kind):
+    base = ["nil", "empty", "pat", "zeros", "ff", "startcodes"]
+    for k, v in C08_SHAPES.items():
+        if kind.startswith(k):
+            return base + v
+    return base
+
+
+def rand_c08(seed, tier, cases=None):
+    rng = random.Random(seed * 7919 + 8)
+    out = []
+    for _ in range(2500 if tier == "quick" else 60000):
+        kind = rng.choice(C08_KINDS)
+        calls = []
+        for j in range(rng.choice([1, 1, 2, 3])):
+            mtu = rng.choice([rng.randint(0, 40), rng.randint(0, 300), rng.randint(0, 65535), 1200, 1500])
+            ln = rng.choice([rng.randint(0, 50), rng.randint(0, 400), rng.randint(0, 3000), 20000 if rng.random() < 0.05 else 7])
+            calls.append(dict(mtu=mtu, shape=rng.choice(_shapes_for(kind)), len=ln, salt=rng.randint(0, 200)))
+        out.append(dict(fam="C08", kind=kind, scribble=True, calls=calls, **{"class": kind + "_rand"}))
+    return out
+
+
+prop(dict(
+    id="C08", fam="C08",
+    mc=[("PayloaderMC.tla", "PayloaderMC.cfg", {"thorough": {"MaxCalls": "4"}}), ("PayloaderMC.tla", "PayloaderMCAlias.cfg", {}, "expect_violation")],
+    gen=[("PayloaderGen.tla", "PayloaderGen.cfg", {"thorough": {"Stride": "1", "Lens": "{1, 2, 3, 4, 5, 9, 17, 40, 41, 100, 300, 1300, 20000}"}})],
+    rand=rand_c08,
+    trace=("PayloaderTrace.tla", "PayloaderTrace.cfg"),
+    shards={"quick": 2, "thorough": 14},
+    workers=16,
+    class_of=lambda c: c["class"],
+    nontrivial=lambda c: any(x["len"] > 0 and x["shape"] not in ("nil", "empty") for x in c["calls"]),
+    mandatory=["g711_mtu_degenerate", "opus_mtu_small", "h264_mtu_degenerate", "h264_history", "h264_params_then_slice", "h265_donl_mtu_small", "h265_history",
+               "vp8pid_mtu_degenerate", "vp9_mtu_small", "vp9_flex_mtu_large", "av1_mtu_degenerate", "av1_history", "av1_rand", "h265_rand"],
+    rule="TLC enumerates (payloader kind x options) x MTU {0..40, 127-129, 255, 256, 1200, 16383-16385, 65535} x input shape (nil, empty, pattern, zeros, 0xFF, start codes and "
+         "codec-shaped seeds: Annex-B with 3/4-byte start codes and SPS/PPS, HEVC NAL streams, OBU streams with/without size fields / extension headers / bad sizes, VP9 key/inter/"
+         "show-existing headers) x length, thinned by a stride in the quick tier, plus three-call histories and targeted SPS/PPS-across-calls histories; after every call the "
+         "caller's buffers are overwritten, returned fragments are re-read and a twin instance fed pristine copies is the oracle for later outputs; seeded random cases are added; "
+         "non-trivial = some non-empty input; distinct = distinct case records",
+    assumptions=COMMON_ASSUME + ["fragment contents are compared by the harness (facts: input unchanged, fragment unchanged after overwrite, equal to the twin's output); TLC judges lengths and facts"],
+))
